@@ -25,6 +25,7 @@ package support
 //@ ghost after call GetComponent: r.HasHole = false
 
 //@ func (*defaultSingletonComponentRegistry).AddSingleton
+//@ terminates
 //@ implements container.SingletonComponentRegistry
 
 //@ func (*defaultSingletonComponentRegistry).AddSingletonFactory
@@ -94,6 +95,7 @@ package support
 
 // One delivered entry: the definition is collected exactly when every option accepts it.
 //@ func (*defaultDefinitionRegistry).GetMetas$1
+//@ terminates
 //@ property C06 C10
 //@ requires [entry] MetaOK(m) && m.Name() == k && forall(j, int, implies(0 <= j && j < len(opts), opts[j] != nil && callpre(opts[j], m)))
 //@ assigns metas, MetasPos, MetasKey
